@@ -38,6 +38,7 @@ type Stage struct {
 
 // UpdateStatus updates stage's status atomically
 func (s *Stage) UpdateStatus(status int32) {
+	verifStatus(s, status)
 	atomic.StoreInt32(&s.Status, status)
 }
 
